@@ -58,18 +58,27 @@ OfOK(in, o) ==
     LET d == OfD(in.pos, IF in.hasn THEN in.n ELSE 0)  s == d.ones IN
     /\ IsAsc(in.pos) /\ (Len(in.pos) > 0 => in.pos[1] >= 0)
     /\ SameBM(o.bm, d)
-    /\ o.arr = in.pos                                    \* ToArray(Of(l)) = l
+    /\ o.arr = in.pos /\ o.arrc = in.pos                  \* ToArray(Of(l)) = l
     /\ \A j \in DOMAIN in.probes :
           LET i == in.probes[j] IN
           /\ ToSet(o.sget[j])  = (IF Inside(d.nw, i) THEN GetD(s, i) ELSE {})
           /\ ToSet(o.sget1[j]) = (IF Inside(d.nw, i) THEN Get1D(s, i) ELSE {})
+          \* the same on a slice with spare capacity (garbage beyond its length)
+          /\ o.sgetc[j] = o.sget[j] /\ o.sget1c[j] = o.sget1[j]
           /\ (Inside(d.nw, i) => ToSet(o.get[j]) = GetD(s, i) /\ ToSet(o.get1[j]) = Get1D(s, i))
 TraceOf == IsEvent("of") /\ OfOK(Ev.in, Ev.out)
 
+\* OfMany: every segment ascending; a position may exceed its segment's size (the shifted concatenation
+\* need not be ascending then) as long as every bit fits the words Of allots: ceil(max(sum of sizes,
+\* last shifted position + 1) / W)
 OfManyOK(in, o) ==
-    /\ Len(in.subs) = Len(in.sizes)
-    /\ IsAsc(Shifted(in.subs, in.sizes, 0))
-    /\ SameBM(o.bm, OfManyD(in.subs, in.sizes))
+    LET sh == Shifted(in.subs, in.sizes, 0)
+        nwD == CeilDiv(Max2(Max2(SumSeq(in.sizes), IF Len(sh) = 0 THEN 0 ELSE sh[Len(sh)] + 1), 0), W)
+    IN /\ Len(in.subs) = Len(in.sizes)
+       /\ \A k \in DOMAIN in.subs : IsAsc(in.subs[k]) /\ (Len(in.subs[k]) > 0 => in.subs[k][1] >= 0)
+       /\ \A j \in DOMAIN sh : sh[j] < W * nwD
+       /\ o.bm.nw = nwD /\ ToSet(o.bm.ones) = ToSet(sh) /\ IsAsc(o.bm.ones)
+       /\ (IsAsc(sh) => SameBM(o.bm, OfManyD(in.subs, in.sizes)))
 TraceOfMany == IsEvent("ofmany") /\ OfManyOK(Ev.in, Ev.out)
 
 \* ToArray(b) lists exactly the set bits ascending; Of(ToArray(b)) = b up to trailing zero words
